@@ -11,7 +11,14 @@ Two workload parts:
     feature (every frame / column / index attribute with every adversarial
     value class, every builtin check with every option subset on every value
     family, every dtype alias, duplicated check kinds, ...)
-  * ``random_spec(rng)``  random bases with 1-4 adversarial features combined.
+  * ``random_spec(rng)``  random bases with 1-4 adversarial features combined
+    (check statistics from the pools or, ``wide_values``, from a wide range).
+History part (what a read returns may not depend on earlier reads of the same
+process): ``_history_catalogue`` / ``_add_sibling`` put the same check (kind,
+dtype, fresh statistics) with different options on two components of one
+schema; ``seq:*`` catalogue entries and ``random_sequence`` are *lists* of
+closely related specs that the check executes in order (``random_case``
+returns either a spec or such a list).
 """
 from __future__ import annotations
 
@@ -71,7 +78,12 @@ STR = {
     "empty": [""],
     "yamlish": ["yes", "null", "~", "1e3", "2020-01-01", " lead", "trail ",
                 "x: y", "- x", "a #b", "123", "1.5"],
+    # words that are also bare names / calls in a generated script
+    "pyword": ["nan", "inf", "-inf", "is nan or inf", "NaT", "Timestamp",
+               "Timedelta", "Check.isin"],
 }
+PYWORD = re.compile(r"\b(nan|inf|NaT|NA|Timestamp|Timedelta|Check|Column|"
+                    r"Index|DataFrameSchema)\b")
 
 
 def str_class(s):
@@ -97,6 +109,8 @@ def str_class(s):
         out.add("keyword")
     if s in STR["yamlish"]:
         out.add("yamlish")
+    if PYWORD.search(s):
+        out.add("pyword")
     if " " in s and not out:
         out.add("space")
     if not out:
@@ -194,7 +208,8 @@ for _k, _v in STR.items():
 VALUES["cat"] = [("str-plain", "a"), ("str-plain", "b"), ("str-space", "c d")]
 PATTERNS = [("str-plain", "abc"), ("str-regex", r"^a\d+$"),
             ("str-regex", r"[a-z]{2,}\.x"), ("str-squote", "a'b"),
-            ("str-dquote", 'x"y'), ("str-backslash", "\\\\d")]
+            ("str-dquote", 'x"y'), ("str-backslash", "\\\\d"),
+            ("str-pyword", "nan|inf")]
 
 
 def _ordered(fam):
@@ -214,9 +229,67 @@ def check_kinds(fam):
     return ks
 
 
-def make_check(kind, fam, pick, variant=0):
+def wide_values(fam, rng, n=4):
+    """``n`` values of the family drawn from a wide range (not the pool), so
+    that the same (check, statistics) pair is unlikely to have been seen by
+    this process before; same (class, value) layout as VALUES[fam]."""
+    out = []
+    for _ in range(n):
+        k = rng.randrange(-10 ** 6, 10 ** 6)
+        if fam == "float":
+            v = k / 8 + rng.choice([0.0, 0.1, 1e-9])
+        elif fam == "bool":
+            v = bool(k % 2)
+        elif fam in ("str", "cat"):
+            v = rng.choice(["v", "k_", "item ", "nan ", "é"]) + str(abs(k))
+        elif fam in ("datetime", "datetime_tz"):
+            v = T("2001-01-01") + TD(abs(k) * rng.choice(
+                [1, 10 ** 3, 10 ** 6, 10 ** 9, 86400 * 10 ** 9 // 1000]), "ns")
+            if fam == "datetime_tz":
+                v = v.tz_localize("UTC")
+        elif fam == "timedelta":
+            v = TD(k * rng.choice([1, 10 ** 3, 10 ** 6, 10 ** 9]) +
+                   rng.choice([0, 1, 7, 999]), "ns")
+        else:
+            v = k
+        out.append(("wide", v))
+    return out
+
+
+def fresh_values(fam, token):
+    """Deterministic counterpart of ``wide_values``: values derived from an
+    integer token that no other catalogue entry uses."""
+    k = int(token)
+    if fam == "float":
+        vs = [k + 0.5, k + 1.25]
+    elif fam in ("str", "cat"):
+        vs = [f"v{k}", f"w{k}"]
+    elif fam in ("datetime", "datetime_tz"):
+        vs = [T("2001-01-01") + TD(k, "s"), T("2001-01-02") + TD(k, "s")]
+        if fam == "datetime_tz":
+            vs = [v.tz_localize("UTC") for v in vs]
+    elif fam == "timedelta":
+        vs = [TD(k, "s"), TD(k + 1, "s")]
+    elif fam == "bool":
+        vs = [True, False]           # no fresh values in a two-element domain
+    else:
+        vs = [k, k + 1]
+    return [("fresh", v) for v in vs]
+
+
+def cycle(xs):
+    """pick-function that walks through ``xs`` in order."""
+    st = {"i": -1}
+
+    def pick(_ignored):
+        st["i"] += 1
+        return xs[st["i"] % len(xs)]
+    return pick
+
+
+def make_check(kind, fam, pick, variant=0, vals=None):
     """pick(list) -> element.  Returns a check spec."""
-    vals = VALUES.get(fam) or VALUES["int"]
+    vals = vals or VALUES.get(fam) or VALUES["int"]
     one = lambda: pick(vals)[1]
     if kind in ("equal_to", "not_equal_to"):
         args = {"value": one()}
@@ -250,7 +323,8 @@ def make_check(kind, fam, pick, variant=0):
     elif kind in ("str_matches", "str_contains"):
         args = {"pattern": pick(PATTERNS)[1]}
     elif kind in ("str_startswith", "str_endswith"):
-        args = {"string": pick(VALUES["str"])[1]}
+        args = {"string": pick(vals if isinstance(vals[0][1], str)
+                               else VALUES["str"])[1]}
     elif kind == "str_length":
         args = [{"min_value": 1, "max_value": 3}, {"min_value": 2,
                 "max_value": None}, {"min_value": None, "max_value": 4},
@@ -498,7 +572,29 @@ def tokens(spec):
             t.append(f"ncols={len(comps)}")
         elif comps:
             t.append("index" if len(comps) == 1 else "multiindex")
+    t += sorted(set(_sibling_tokens(spec)))
     return sorted(t)
+
+
+def same_check(a, b):
+    """Same builtin check with the same statistics (options may differ)."""
+    return a["kind"] == b["kind"] and a["args"] == b["args"]
+
+
+def _sibling_tokens(spec):
+    """The same check (kind + statistics) held by two different components."""
+    holders = [spec["checks"]] + [c["checks"] for c in spec["columns"]] + \
+        [c["checks"] for c in (spec["index"] or [])]
+    out = []
+    for i, a in enumerate(holders):
+        for b in holders[i + 1:]:
+            for x in a:
+                for y in b:
+                    if same_check(x, y):
+                        out.append("xcomp.checks:same-check-" + (
+                            "same-options" if x["opts"] == y["opts"]
+                            else "different-options"))
+    return out
 
 
 # ---------------------------------------------------------------------------
@@ -626,6 +722,126 @@ def catalogue(full=True):
     add("col.checks:le+ge", base_spec([col("c0", checks=[b, a])]))
     add("frame.checks:two-kinds", base_spec(
         [col("c0")], checks=[a, make_check("isin", "int", pick, 2)]))
+    # string statistics: every string class in every string-valued slot
+    skinds = ("equal_to", "isin", "str_startswith") + (
+        ("not_equal_to", "notin", "str_endswith", "unique_values_eq")
+        if full else ())
+    for cls, vals in STR.items():
+        for v in (vals if full else vals[:2]):
+            for kind in skinds:
+                c = make_check(kind, "str", cycle([(cls, v)]), 0)
+                add(f"col.check-strarg:{cls}:{kind}",
+                    base_spec([col("c0", "str", checks=[c])]))
+    for cls, v in PATTERNS:
+        for kind in ("str_matches", "str_contains"):
+            c = make_check(kind, "str", cycle([(cls, v)]), 0)
+            add(f"col.check-pattern:{cls}:{kind}",
+                base_spec([col("c0", "str", checks=[c])]))
+    out += _history_catalogue(full, fams)
+    return out
+
+
+def _history_catalogue(full, fams):
+    """The same check (kind, dtype, statistics) read more than once by one
+    process with different options / on different components: side by side
+    in one schema (``sibling.*``) and in consecutive schemas (``seq:*``, the
+    payload is a list of specs executed in order).  Statistics are *fresh*
+    (derived from a running token) so that the first reader of every entry
+    is the first reader of that check in the process."""
+    out = []
+    add = lambda label, s: out.append((label, s))
+    tok = itertools.count(100)
+    kinds = [("int", "greater_than"), ("str", "isin")]
+    if full:
+        kinds += [("int", "in_range"), ("int", "equal_to"),
+                  ("float", "less_than"), ("str", "str_startswith"),
+                  ("datetime", "greater_than_or_equal_to"),
+                  ("datetime_tz", "less_than_or_equal_to"),
+                  ("timedelta", "isin"), ("timedelta", "less_than"),
+                  ("bool", "equal_to"), ("cat", "notin")]
+
+    def fresh(fam, kind, opts=None):
+        c = make_check(kind, fam, cycle(fresh_values(fam, next(tok) * 10)), 1)
+        c["opts"] = dict(opts or {})
+        return c
+
+    def plain(c):
+        return dict(copy.deepcopy(c), opts={})
+
+    subsets = _opt_subsets()[1:]
+    for fam, kind in kinds:
+        dt = fams[fam]
+        for opts in subsets:
+            a = fresh(fam, kind, opts)
+            add("sibling.col-col:opts-first", base_spec(
+                [col("c0", dt, checks=[a]), col("c1", dt, checks=[plain(a)])]))
+            a = fresh(fam, kind, opts)
+            add("sibling.col-col:plain-first", base_spec(
+                [col("c0", dt, checks=[plain(a)]), col("c1", dt, checks=[a])]))
+            a = fresh(fam, kind, opts)
+            add("seq:opts-then-plain", [
+                base_spec([col("c0", dt, checks=[a])]),
+                base_spec([col("c0", dt, checks=[plain(a)])])])
+            a = fresh(fam, kind, opts)
+            add("seq:plain-then-opts", [
+                base_spec([col("c0", dt, checks=[plain(a)])]),
+                base_spec([col("c0", dt, checks=[a])])])
+        for opts in subsets[:3]:
+            for first_has_opts in (True, False):
+                a = fresh(fam, kind, opts)
+                x, y = (a, plain(a)) if first_has_opts else (plain(a), a)
+                order = "opts-first" if first_has_opts else "plain-first"
+                add(f"sibling.col-idx:{order}", base_spec(
+                    [col("c0", dt, checks=[x])],
+                    index=[level("i", dt, checks=[y])]))
+                add(f"sibling.mi-mi:{order}", base_spec(
+                    [col("c0")], index=[level("i", dt, checks=[x]),
+                                        level("j", dt, checks=[y])]))
+                if fam in ("int", "str"):
+                    add(f"sibling.frame-col:{order}", base_spec(
+                        [col("c0", dt, checks=[y])], checks=[x]))
+        # different values of one option, three holders
+        a = fresh(fam, kind, {"n_failure_cases": 1})
+        b = dict(copy.deepcopy(a), opts={"n_failure_cases": 3})
+        add("sibling.col-col-col:option-values", base_spec(
+            [col("c0", dt, checks=[a]), col("c1", dt, checks=[b]),
+             col("c2", dt, checks=[plain(a)])]))
+        add("seq:option-values", [
+            base_spec([col("c0", dt, checks=[copy.deepcopy(b)])]),
+            base_spec([col("c0", dt, checks=[copy.deepcopy(a)])]),
+            base_spec([col("c0", dt, checks=[plain(a)])])])
+        # the same schema twice, and the same check under another label
+        a = fresh(fam, kind, {"raise_warning": True, "n_failure_cases": 0})
+        one = base_spec([col("c0", dt, checks=[a])])
+        add("seq:same-schema-twice", [one, copy.deepcopy(one)])
+        add("seq:same-check-other-column-label", [
+            copy.deepcopy(one),
+            base_spec([col("c0", dt), col("other", dt, checks=[plain(a)])])])
+    # same check and statistics on another dtype
+    for d1, d2 in (("int64", "float64"), ("int64", "Int64"),
+                   ("int32", "int64"), ("str", "string"), ("str", "object"),
+                   ("datetime64[ns]", "datetime64[ns, UTC]")):
+        fam = family(d1)
+        a = fresh(fam, "isin", {"n_failure_cases": 1, "ignore_na": False})
+        add("seq:same-check-other-dtype", [
+            base_spec([col("c0", d1, checks=[a])]),
+            base_spec([col("c0", d2, checks=[plain(a)])])])
+        a = fresh(fam, "isin", {"raise_warning": True})
+        add("sibling.col-col:other-dtype", base_spec(
+            [col("c0", d1, checks=[a]), col("c1", d2, checks=[plain(a)])]))
+    # the same component with and without its flags / texts
+    flagged = dict(nullable=True, unique=True, coerce=True, required=False,
+                   title="A title", description="some words")
+    for k, v in flagged.items():
+        a = fresh("int", "less_than")
+        add(f"seq:col.{k}-then-default", [
+            base_spec([col("c0", checks=[a], **{k: v})]),
+            base_spec([col("c0", checks=[copy.deepcopy(a)])])])
+    for k, v in dict(strict="filter", coerce=True, ordered=True,
+                     unique=["c0"], name="frame_name", title="T").items():
+        add(f"seq:frame.{k}-then-default", [
+            base_spec([col("c0"), col("c1", "str")], **{k: v}),
+            base_spec([col("c0"), col("c1", "str")])])
     return out
 
 
@@ -665,7 +881,8 @@ def _rand_check(rng, dtype):
     if fam == "other":
         fam = "int"
     kind = rng.choice(check_kinds(fam))
-    c = make_check(kind, fam, rng.choice, rng.randrange(8))
+    vals = wide_values(fam, rng) if rng.random() < 0.3 else None
+    c = make_check(kind, fam, rng.choice, rng.randrange(8), vals=vals)
     if kind in ALIASES and rng.random() < 0.5:
         c["via"] = ALIASES[kind]
     for o, vals in OPTS.items():
@@ -674,10 +891,122 @@ def _rand_check(rng, dtype):
     return c
 
 
+def _redraw_opts(c, rng):
+    """Another option subset for a copy of check ``c``."""
+    new = copy.deepcopy(c)
+    for _ in range(8):
+        new["opts"] = {o: rng.choice(v) for o, v in OPTS.items()
+                       if rng.random() < 0.35}
+        if new["opts"] != c["opts"]:
+            break
+    return new
+
+
+def _add_sibling(spec, rng):
+    """Give a second component the same check as an existing one (fresh
+    statistics), usually with other options."""
+    comps = [c for c in spec["columns"] + (spec["index"] or [])]
+    if len(comps) < 2:
+        spec["columns"].append(col(f"c{len(spec['columns'])}",
+                                   comps[0]["dtype"] if comps else "int64"))
+        comps = spec["columns"] + (spec["index"] or [])
+    src, dst = rng.sample(comps, 2)
+    if isinstance(src["dtype"], dict):
+        return
+    fam = family(src["dtype"])
+    if fam == "other":
+        return
+    kind = rng.choice(check_kinds(fam))
+    c = make_check(kind, fam, rng.choice, rng.randrange(8),
+                   vals=wide_values(fam, rng))
+    if rng.random() < 0.7:
+        c["opts"] = {o: rng.choice(v) for o, v in OPTS.items()
+                     if rng.random() < 0.5}
+    if any(k["kind"] == kind for k in src["checks"] + dst["checks"]):
+        return                       # no second check of one kind (known)
+    if dst["dtype"] != src["dtype"]:
+        # keep statistics coherent with the dtype of their holder: another
+        # dtype only within the same value family (int64 / Int64 / int32 ..)
+        same_family = not isinstance(dst["dtype"], dict) and \
+            dst["dtype"] is not None and family(dst["dtype"]) == fam
+        if dst["checks"] and not same_family:
+            return
+        if not same_family or rng.random() < 0.7:
+            dst["dtype"] = src["dtype"]
+    other = _redraw_opts(c, rng) if rng.random() < 0.85 else copy.deepcopy(c)
+    first, second = (c, other) if rng.random() < 0.5 else (other, c)
+    src["checks"].append(first)
+    dst["checks"].append(second)
+
+
+def _variant(spec, rng):
+    """A close relative of ``spec``: same components and statistics, some
+    options / flags / texts changed or reset."""
+    s = copy.deepcopy(spec)
+    holders = [s["checks"]] + [c["checks"] for c in s["columns"]] + \
+        [c["checks"] for c in (s["index"] or [])]
+    mode = rng.choice(["drop-opts", "redraw-opts", "reset-flags", "mixed"])
+    for h in holders:
+        for j, c in enumerate(h):
+            if mode == "drop-opts" or (mode == "mixed" and rng.random() < .5):
+                h[j] = dict(c, opts={})
+            elif mode == "redraw-opts":
+                h[j] = _redraw_opts(c, rng)
+    if mode in ("reset-flags", "mixed"):
+        for c in s["columns"]:
+            for k in ("nullable", "unique", "coerce", "required", "regex",
+                      "title", "description"):
+                if rng.random() < 0.6:
+                    c[k] = copy.deepcopy(COL_DEFAULT[k])
+        for c in (s["index"] or []):
+            for k in ("nullable", "unique", "coerce", "title", "description"):
+                if rng.random() < 0.6:
+                    c[k] = copy.deepcopy(IDX_DEFAULT[k])
+        for k in ("strict", "coerce", "ordered", "title", "description",
+                  "name", "unique_column_names", "add_missing_columns"):
+            if rng.random() < 0.6:
+                s[k] = copy.deepcopy(FRAME_DEFAULT[k])
+    return s
+
+
+def random_sequence(rng):
+    """2-3 related specs to be executed in order by one process."""
+    a = random_spec(rng)
+    holders = [c for c in a["columns"] + (a["index"] or [])
+               if not isinstance(c["dtype"], dict)
+               and family(c["dtype"]) != "other"]
+    if holders:
+        # at least one check with fresh statistics and at least one option
+        h = rng.choice(holders)
+        fam = family(h["dtype"])
+        kind = rng.choice(check_kinds(fam))
+        if not any(k["kind"] == kind for k in h["checks"]):
+            c = make_check(kind, fam, rng.choice, rng.randrange(8),
+                           vals=wide_values(fam, rng))
+            c["opts"] = _redraw_opts(c, rng)["opts"] or {"n_failure_cases":
+                                                         rng.choice([0, 1, 3])}
+            h["checks"].append(c)
+    b = _variant(a, rng)
+    shape = rng.choice(["ab", "ab", "ba", "aba", "abc"])
+    seq = {"ab": [a, b], "ba": [b, a], "aba": [a, b, copy.deepcopy(a)],
+           "abc": [a, b, _variant(a, rng)]}[shape]
+    return seq
+
+
+def random_case(rng):
+    """(label, payload): a single spec or a list of specs (sequence)."""
+    if rng.random() < 0.25:
+        return "random-seq", random_sequence(rng)
+    return "random", random_spec(rng)
+
+
 def _add_random_feature(spec, rng):
     comps = [("columns", i) for i in range(len(spec["columns"]))]
     comps += [("index", i) for i in range(len(spec["index"] or []))]
     r = rng.random()
+    if rng.random() < 0.10:
+        _add_sibling(spec, rng)
+        return
     if r < 0.30:
         part, i = rng.choice(comps)
         c = spec[part][i]
